@@ -179,6 +179,10 @@ def designator_body(dtype, d):
         return bytes(d["md5_logical_identifier"])
     if dtype == 8:
         return bytes(d["scsi_name_string"])
+    if dtype == 9:
+        # protocol specific port identifier, SCSI over PCI Express flavour (SPC-4 7.8.6.11.3): PCI EXPRESS
+        # ROUTING ID in bytes 0..1, bytes 2..7 reserved
+        return be(d["pci_express_routing_id"], 2) + bytes(6)
     raise ValueError(dtype)
 
 
